@@ -289,6 +289,7 @@ type c15EvScen struct {
 	Sig          string `json:"sig"`           // good | tampered | none | wrongkey | othersigner | verr
 	LocalSig     bool   `json:"local_sig"`     // already carries a signature of the local server
 	Unsigned     string `json:"unsigned"`      // unsigned object text ("" = none)
+	Mapping      string `json:"mapping"`       // pseudo-ID rooms: good | missing | badsig | nosigs | othersigner
 }
 
 const (
@@ -300,6 +301,11 @@ const (
 // builds the raw event JSON for the scenario
 func c15MakeEvent(ver gmsl.RoomVersion, s c15EvScen) []byte {
 	sender := "@user:" + s.SenderDomain
+	pseudo := ver == gmsl.RoomVersionPseudoIDs
+	_, userRoomKey := c15Key("pseudo-user-" + s.SenderDomain)
+	if pseudo {
+		sender = string(spec.SenderIDFromPseudoIDKey(userRoomKey))
+	}
 	var sk *string
 	switch s.StateKey {
 	case "sender":
@@ -332,6 +338,22 @@ func c15MakeEvent(ver gmsl.RoomVersion, s c15EvScen) []byte {
 	if s.Extra != "" {
 		parts = append(parts, s.Extra)
 	}
+	if pseudo && s.Mapping != "missing" {
+		mapping := gmsl.MXIDMapping{UserRoomKey: spec.SenderID(sender), UserID: "@user:" + s.SenderDomain}
+		_, msk := c15Key(s.SenderDomain)
+		switch s.Mapping {
+		case "nosigs":
+		case "badsig":
+			_, wrong := c15Key("elsewhere")
+			_ = mapping.Sign(spec.ServerName(s.SenderDomain), c15KeyID, wrong)
+		case "othersigner":
+			_, osk := c15Key("other")
+			_ = mapping.Sign("other", c15KeyID, osk)
+		default:
+			_ = mapping.Sign(spec.ServerName(s.SenderDomain), c15KeyID, msk)
+		}
+		parts = append(parts, `"mxid_mapping":`+string(c15JSON(mapping)))
+	}
 	content := "{" + strings.Join(parts, ",") + "}"
 	signer, keyName := s.SenderDomain, s.SenderDomain
 	switch s.Sig {
@@ -345,7 +367,30 @@ func c15MakeEvent(ver gmsl.RoomVersion, s c15EvScen) []byte {
 	if s.Unsigned != "" {
 		proto.Unsigned = spec.RawJSON(s.Unsigned)
 	}
-	ev := c15Build(ver, proto, signer, keyName)
+	if gmsl.MustGetRoomVersion(ver).DomainlessRoomIDs() && s.Type == spec.MRoomCreate {
+		// such create events carry no room_id (the room ID is derived from the event ID) and the
+		// builder insists on the empty state key
+		proto.RoomID = ""
+		e := ""
+		proto.StateKey = &e
+	}
+	var ev gmsl.PDU
+	if pseudo {
+		// pseudo-ID events are signed with the user's room key under the sender ID, key ed25519:1
+		key := userRoomKey
+		switch s.Sig {
+		case "wrongkey", "othersigner":
+			_, key = c15Key("elsewhere")
+		}
+		proto.PrevEvents, proto.AuthEvents = []interface{}{}, []interface{}{}
+		var berr error
+		ev, berr = gmsl.MustGetRoomVersion(ver).NewEventBuilderFromProtoEvent(&proto).Build(c15Time, spec.ServerName(sender), "ed25519:1", key)
+		if berr != nil {
+			panic(fmt.Sprintf("c15MakeEvent: %v", berr))
+		}
+	} else {
+		ev = c15Build(ver, proto, signer, keyName)
+	}
 	if s.LocalSig {
 		_, lsk := c15Key("local")
 		ev = ev.Sign("local", c15KeyID, lsk)
@@ -366,12 +411,20 @@ func c15MakeEvent(ver gmsl.RoomVersion, s c15EvScen) []byte {
 
 // independent verdict of the signature check the handler is to make
 func c15VerifyCfg(sig string, v *c15Verifier, server string, ver gmsl.RoomVersion, ev gmsl.PDU) string {
-	if sig == "verr" {
+	if sig == "verr" && ver != gmsl.RoomVersionPseudoIDs {
 		return "err"
 	}
 	red, err := gmsl.MustGetRoomVersion(ver).RedactEventJSON(ev.JSON())
 	if err != nil {
 		return "bad"
+	}
+	if ver == gmsl.RoomVersionPseudoIDs {
+		// the handler swaps the verifier for JSONVerifierSelf, keyed by the sender ID
+		res, verr := gmsl.JSONVerifierSelf{}.VerifyJSONs(context.Background(), []gmsl.VerifyJSONRequest{{ServerName: spec.ServerName(ev.SenderID()), Message: red, AtTS: ev.OriginServerTS()}})
+		if verr != nil || res[0].Error != nil {
+			return "bad"
+		}
+		return "ok"
 	}
 	if v.verdict(server, red) != nil {
 		return "bad"
@@ -431,6 +484,25 @@ type c15SJScen struct {
 	Origin     string    `json:"origin"`
 	SenderQ    string    `json:"sender_q"`
 	MemberQ    string    `json:"member_q"`
+	Store      string    `json:"store"` // pseudo-ID rooms: "" (ok) | err
+}
+
+// what getMXIDMapping / validateMXIDMappingSignatures will find, asked of the same library pieces
+func c15MappingCfg(ev gmsl.PDU, v *c15Verifier) (ok bool, sigOK bool) {
+	var mc gmsl.MemberContent
+	if err := json.Unmarshal(ev.Content(), &mc); err != nil || mc.MXIDMapping == nil {
+		return false, false
+	}
+	msg, err := json.Marshal(*mc.MXIDMapping)
+	if err != nil {
+		return true, false
+	}
+	for server := range mc.MXIDMapping.Signatures {
+		if v.verdict(string(server), msg) != nil {
+			return true, false
+		}
+	}
+	return true, true
 }
 
 func c15SendJoin(args [][]byte) ([][]byte, []byte) {
@@ -455,12 +527,15 @@ func c15SendJoin(args [][]byte) ([][]byte, []byte) {
 	log := &c15Log{}
 	verifier := &c15Verifier{log: log, keys: c15Keys(), fail: s.Ev.Sig == "verr"}
 	sq := &c15SenderQ{log: log, mode: s.SenderQ}
+	if ver == gmsl.RoomVersionPseudoIDs {
+		sq.user = "@user:" + s.Ev.SenderDomain
+	}
 	room, _ := spec.NewRoomID(c15ReqRoom)
 	_, lsk := c15Key("local")
 	lpk, _ := c15Key("local")
 
 	cfg := c15Obj{"version": s.Ver, "req_room": c15ReqRoom, "origin": s.Origin, "local": "local",
-		"key_id": string(c15KeyID), "mapping_ok": true, "mapping_sig_ok": true, "store_ok": true,
+		"key_id": string(c15KeyID), "mapping_ok": true, "mapping_sig_ok": true, "store_ok": s.Store != "err",
 		"redact_ok": true, "member_q": c15MemberCfg(s.MemberQ), "via_domain": "err"}
 	reqEventID := s.ReqEventID
 	// independent parse for the record
@@ -481,6 +556,9 @@ func c15SendJoin(args [][]byte) ([][]byte, []byte) {
 			reqEventID = parsed.EventID()
 		}
 		cfg["sender_q"] = sq.cfg(string(parsed.SenderID()))
+		if ver == gmsl.RoomVersionPseudoIDs {
+			cfg["mapping_ok"], cfg["mapping_sig_ok"] = c15MappingCfg(parsed, verifier)
+		}
 		dom := ""
 		if d, ok := cfg["sender_q"].(c15Obj); ok {
 			dom = d["domain"].(string)
@@ -511,6 +589,9 @@ func c15SendJoin(args [][]byte) ([][]byte, []byte) {
 		UserIDQuerier:     sq.fn,
 		StoreSenderIDFromPublicID: func(ctx context.Context, senderID spec.SenderID, userID string, id spec.RoomID) error {
 			log.add("T", id.String())
+			if s.Store == "err" {
+				return errC15Passthrough
+			}
 			return nil
 		},
 	})
@@ -714,7 +795,7 @@ func genC15SendJoin(c *Ctx) {
 	good := func() c15SJScen {
 		return c15SJScen{Ver: "10", Ev: c15GoodEv("join", "sender"), ReqEventID: "match", Origin: "remote", SenderQ: "ok", MemberQ: "leave"}
 	}
-	vers := []string{"1", "2", "5", "8", "10", "11", "bogus", ""}
+	vers := []string{"1", "2", "5", "8", "10", "11", "12", "org.matrix.msc4014", "bogus", ""}
 	// one-guard-at-a-time deviations from the good request, for every version
 	type mut struct {
 		name string
@@ -759,6 +840,11 @@ func genC15SendJoin(c *Ctx) {
 		{"content bad type", func(s *c15SJScen) { s.Ev.Extra = `"displayname":5` }},
 		{"already signed locally", func(s *c15SJScen) { s.Ev.LocalSig = true }},
 		{"with unsigned", func(s *c15SJScen) { s.Ev.Unsigned = `{"age":5}` }},
+		{"mapping missing", func(s *c15SJScen) { s.Ev.Mapping = "missing" }},
+		{"mapping badly signed", func(s *c15SJScen) { s.Ev.Mapping = "badsig" }},
+		{"mapping unsigned", func(s *c15SJScen) { s.Ev.Mapping = "nosigs" }},
+		{"mapping signed by another server", func(s *c15SJScen) { s.Ev.Mapping = "othersigner" }},
+		{"store fails", func(s *c15SJScen) { s.Store = "err" }},
 	}
 	for _, v := range vers {
 		for _, m := range muts {
@@ -769,8 +855,8 @@ func genC15SendJoin(c *Ctx) {
 			c.Count("send_join/single/" + m.name)
 		}
 	}
-	// pairs of deviations (guard order) on v10 and v1
-	for _, v := range []string{"10", "1"} {
+	// pairs of deviations (guard order) on v10, v1 and the pseudo-ID version
+	for _, v := range []string{"10", "1", "org.matrix.msc4014"} {
 		for i := 1; i < len(muts); i++ {
 			for j := i + 1; j < len(muts); j++ {
 				if !c.Thorough() && c.Rng.Intn(3) != 0 {
@@ -817,7 +903,7 @@ func genC15Invite(c *Ctx) {
 	good := func() c15IVScen {
 		return c15IVScen{Ver: "10", Ev: c15GoodEv("invite", "target"), SenderQ: "ok", Known: "yes", Given: 2, Generated: "some", MemberQ: "leave"}
 	}
-	vers := []string{"1", "2", "5", "8", "10", "11", "bogus", ""}
+	vers := []string{"1", "2", "5", "8", "10", "11", "12", "bogus", ""}
 	type mut struct {
 		name string
 		f    func(*c15IVScen)
